@@ -118,6 +118,8 @@ type allocRec struct {
 }
 
 type Enc struct {
+	nameFallback bool
+	atHit    map[int]bool // at-clauses of the contract that matched a site
 	families []*sliceFamily
 	escAt    map[ssa.Instruction][]*sliceFamily
 	p    *Prog
@@ -152,6 +154,8 @@ type Enc struct {
 	defers   []ssa.CallInstruction
 	allocs   []allocRec
 	names    map[string][]ssa.Value // source names from DebugRef
+	nameAt   map[string]map[ssa.Value]ssa.Instruction // where the variable is first seen holding the value
+	curInstr ssa.Instruction
 	rets     []retRec
 	specDecl map[string]bool
 	boxDecl  map[string]bool
@@ -198,6 +202,7 @@ func NewEnc(p *Prog, fn *ssa.Function) *Enc {
 }
 
 func (e *Enc) reset() {
+	e.atHit = map[int]bool{}
 	e.sb.Reset()
 	e.decl = map[string]bool{}
 	e.n = 0
@@ -906,8 +911,10 @@ func (e *Enc) encodeBlock(b *ssa.BasicBlock) {
 		if _, ok := in.(*ssa.Phi); ok {
 			continue
 		}
+		e.curInstr = in
 		e.encodeInstr(in)
 	}
+	e.curInstr = nil
 	e.exit[b] = e.cur
 }
 
@@ -1038,6 +1045,15 @@ func (e *Enc) coverEnd(reach Term) {
 }
 
 func (e *Enc) encodeExit() {
+	// an at-clause that matched no call, append, map update or store pins nothing: the site it was
+	// written for is gone
+	if e.fc != nil {
+		for i, at := range e.fc.At {
+			if !e.atHit[i] {
+				e.contractError(e.name, at.Clause, fmt.Errorf("at %s matches no site in the function", at.Callee), e.fn.Pos())
+			}
+		}
+	}
 	if len(e.rets) == 0 {
 		e.coverEnd(True)
 		return
